@@ -303,15 +303,17 @@ fn batch(ctx: &Ctx, rep: &mut Report, id: usize, b: usize) {
     let mut rng = ctx.rng(&format!("c04-batch-{GROUP}"), id as u64);
     let n = [2usize, 4, 8][b % 3];
     let ext = 1 + (b % 6);
-    let k = 2 + (b % 4);
+    // now and then a batch longer than the library's internal chunk of 256 members
+    let big = b % 24 == 23;
+    let k = if big { 257 + ((b / 24) % 4) * 43 } else { 2 + (b % 4) };
     let mut cases = vec![];
     let mut proofs = vec![];
     for i in 0..k {
-        let m = [1usize, 2, 4, 1][(i + b) % 4];
+        let m = if big { 1 } else { [1usize, 2, 4, 1][(i + b) % 4] };
         let cfg = Cfg::new(n, m, (m << (i % 2)).min(8), ext);
         let mut case = Case::random(cfg, VALUE_CLASSES[(i + b) % 6], PROMISE_CLASSES[i % 5], i % 2 == 1, &mut rng);
         // distinct contexts per member
-        case.ctx.extra.push(vec![i as u8, 0xC4]);
+        case.ctx.extra.push(vec![i as u8, (i >> 8) as u8, 0xC4]);
         let mut prng = FaultRng::new(RngKind::Healthy(rng.next_u64()));
         let Ok(p) = case.prove(&mut prng) else { return };
         cases.push(case);
@@ -363,7 +365,10 @@ fn batch(ctx: &Ctx, rep: &mut Report, id: usize, b: usize) {
         per_member.push(challenges_on(&ev, mine[0]));
     }
     // differential: perturb member j's context only
-    let j = b % k;
+    let j = if big { k - 1 - (b / 24) % 3 } else { b % k };
+    if big {
+        rep.count("batch_traces_beyond_one_chunk", 1);
+    }
     let mut ctxs2 = ctxs.clone();
     ctxs2[j].extra.push(vec![0x99]);
     let (ev2, forks2, ok2) = run(&ctxs2);
